@@ -15,6 +15,7 @@ import (
 
 	mail "github.com/wneessen/go-mail"
 	maillog "github.com/wneessen/go-mail/log"
+	"github.com/wneessen/go-mail/smtp"
 	"pgregory.net/rapid"
 
 	"verif/harness/core"
@@ -34,6 +35,10 @@ type c16Case struct {
 	Extra   bool                       `json:"extra,omitempty"` // unexpected extra challenge before the final reply
 	Logger  string                     `json:"logger"`          // capture | std | json
 	SendMsg bool                       `json:"send_msg"`        // followed by a MAIL/RCPT/DATA transaction
+	// Direct: drive the exported smtp.Client API directly (NewClient, SetLogger, SetDebugLog, Auth)
+	// instead of mail.Client; NoHello: Auth is the first method that talks to the server.
+	Direct  bool `json:"direct,omitempty"`
+	NoHello bool `json:"no_hello,omitempty"`
 }
 
 type captureLogger struct {
@@ -142,16 +147,73 @@ func c16Run(c c16Case) []*core.Violation {
 	m.Subject("c16")
 	m.SetBodyString(mail.TypeTextPlain, "body\r\n")
 	var dialErr, sendErr error
-	r := watchdog(20*time.Second, d, func() error {
-		if dialErr = cl.DialWithContext(context.Background()); dialErr != nil {
+	var r callResult
+	if c.Direct {
+		r = watchdog(20*time.Second, d, func() error {
+			conn, derr := d.DialContext(context.Background(), "tcp", refHost+":25")
+			if derr != nil {
+				dialErr = derr
+				return nil
+			}
+			sc, nerr := smtp.NewClient(conn, refHost)
+			if nerr != nil {
+				dialErr = nerr
+				return nil
+			}
+			defer func() { _ = sc.Close() }()
+			switch c.Logger {
+			case "std":
+				sc.SetLogger(maillog.New(w, maillog.LevelDebug))
+			case "json":
+				sc.SetLogger(maillog.NewJSON(w, maillog.LevelDebug))
+			default:
+				sc.SetLogger(capture)
+			}
+			sc.SetDebugLog(true)
+			if !c.NoHello {
+				if herr := sc.Hello("client.verif.example"); herr != nil {
+					dialErr = herr
+					return nil
+				}
+			}
+			var a smtp.Auth
+			switch wire {
+			case "PLAIN":
+				a = smtp.PlainAuth("", c.User, c.Pass, refHost, true)
+			case "LOGIN":
+				a = smtp.LoginAuth(c.User, c.Pass, refHost, true)
+			case "CRAM-MD5":
+				a = smtp.CRAMMD5Auth(c.User, c.Pass)
+			case "XOAUTH2":
+				a = smtp.XOAuth2Auth(c.User, c.Pass)
+			case "SCRAM-SHA-1":
+				a = smtp.ScramSHA1Auth(c.User, c.Pass)
+			default:
+				a = smtp.ScramSHA256Auth(c.User, c.Pass)
+			}
+			if dialErr = sc.Auth(a); dialErr != nil {
+				return nil
+			}
+			if c.SendMsg {
+				if sendErr = sc.Mail(marker + "@sender.verif.example"); sendErr == nil {
+					_ = sc.Reset()
+				}
+			}
+			_ = sc.Quit()
 			return nil
-		}
-		if c.SendMsg {
-			sendErr = cl.Send(m)
-		}
-		_ = cl.Close()
-		return nil
-	})
+		})
+	} else {
+		r = watchdog(20*time.Second, d, func() error {
+			if dialErr = cl.DialWithContext(context.Background()); dialErr != nil {
+				return nil
+			}
+			if c.SendMsg {
+				sendErr = cl.Send(m)
+			}
+			_ = cl.Close()
+			return nil
+		})
+	}
 	d.Shutdown()
 	if r.Panic != nil {
 		return []*core.Violation{core.V("panic", "client panicked: %v", r.Panic)}
@@ -307,7 +369,7 @@ func c16Run(c c16Case) []*core.Violation {
 		rec.Class("exchange:ok")
 	}
 	if responses >= 2 || abnormal {
-		rec.NonTrivial(core.Join(c.Mech, c.TLS, c.Wrong, strings.Join(keys, ","), c.Extra, c.Logger, c.SendMsg, core.Hash(c.Pass)))
+		rec.NonTrivial(core.Join(c.Mech, c.TLS, c.Wrong, strings.Join(keys, ","), c.Extra, c.Logger, c.SendMsg, c.Direct, c.NoHello, core.Hash(c.Pass)))
 		rec.Sample(c.Mech+"/"+c.Logger+fmt.Sprint(abnormal), map[string]interface{}{"mech": c.Mech, "tls": c.TLS, "wrong_password": c.Wrong, "faults": keys, "extra_challenge": c.Extra, "logger": c.Logger, "log_records": nrecs, "secret_lines_checked": len(secretLines), "dial_error": fmt.Sprint(dialErr), "send_error": fmt.Sprint(sendErr)})
 	}
 	return vs
@@ -335,6 +397,11 @@ func c16Gen(t *rapid.T) c16Case {
 	c.Wrong = rapid.IntRange(0, 3).Draw(t, "wrong") == 0
 	c.Logger = rapid.SampledFrom([]string{"capture", "capture", "std", "json"}).Draw(t, "logger")
 	c.SendMsg = rapid.Bool().Draw(t, "sendmsg")
+	if c.TLS == "none" && rapid.IntRange(0, 3).Draw(t, "direct") == 0 {
+		c.Direct = true
+		c.NoHello = rapid.Bool().Draw(t, "nohello")
+		c.Mech = strings.TrimSuffix(c.Mech, "-NOENC")
+	}
 	c.Steps = map[string]refsmtp.Outcome{}
 	switch rapid.IntRange(0, 7).Draw(t, "script") {
 	case 0:
@@ -358,7 +425,7 @@ func c16Gen(t *rapid.T) c16Case {
 
 func TestC16(t *testing.T) {
 	rec := core.Rec("C16")
-	rec.Rule = "the real Client with WithDebugLog (auth-data logging not enabled) authenticates against the reference SASL servers with mechanisms {PLAIN, LOGIN (NOENC and over TLS), CRAM-MD5, XOAUTH2, SCRAM-SHA-1/-256 and PLUS over TLS 1.2/1.3}, random alphanumeric passwords/tokens of 12..40 characters, right or wrong password, and server scripts {success, 535 to the AUTH command, 535 / non-base64 challenge / disconnect at exchange step 1..3, unexpected extra challenge, disconnect at AUTH}; loggers: a capturing log.Logger, log.New (text) and log.NewJSON; optionally followed by a MAIL/RCPT/DATA transaction. " +
+	rec.Rule = "the real Client with WithDebugLog (auth-data logging not enabled) authenticates against the reference SASL servers with mechanisms {PLAIN, LOGIN (NOENC and over TLS), CRAM-MD5, XOAUTH2, SCRAM-SHA-1/-256 and PLUS over TLS 1.2/1.3}, random alphanumeric passwords/tokens of 12..40 characters, right or wrong password, and server scripts {success, 535 to the AUTH command, 535 / non-base64 challenge / disconnect at exchange step 1..3, unexpected extra challenge, disconnect at AUTH}; loggers: a capturing log.Logger, log.New (text) and log.NewJSON; optionally followed by a MAIL/RCPT/DATA transaction; one case in four (of the non-TLS ones) drives the exported smtp.Client API directly (NewClient, SetLogger, SetDebugLog, Auth with or without a prior Hello, Mail, Quit). " +
 		"Oracle: no log record (each Messages element, the formatted record, the stock loggers' bytes, every JSON string value) contains the password/token raw, in hex, or in base64 at any of the three alignments, nor any SASL response line that carries the secret or a proof derived from it (as recorded by the server); and the MAIL FROM line sent after authentication appears in the log (redaction window closed). " +
 		"Non-trivial: >= 2 client responses in the exchange or an abnormal end. Distinct by (mechanism, TLS, wrong password, script, logger, transaction, password)."
 	rec.Assumptions = []string{"passwords are alphanumeric so that JSON escaping cannot hide them", "the user name and the mechanism name are not secrets"}
